@@ -301,6 +301,10 @@ func init() {
 			r.Try(func() { reexport(w, r, "R01.15", func(sub *Report) { checkC17(w, sub) }, "R17.1", "R17.3") })
 			r.Rule("R01.16", 1, "every singleton the provider knows was constructed at Build: graph, eager creation order and the registry snapshot come from one critical section of the collection")
 			r.Try(func() { ruleBuildOneCriticalSection(w, r, "R01.16") })
+			r.Rule("R01.17", 1, "eager creation is sequential: the container starts no goroutine other than the context watchers (sibling outputs of one constructor sit on one level of the graph - built concurrently, each worker passes the already-created test and the constructor runs once per output)")
+			r.Try(func() { reexport(w, r, "R01.17", func(sub *Report) { checkGoStatements(w, sub) }, "R09.4") })
+			r.Rule("R01.18", 2, "who-may-call setInstance / setSingleton: the creation chain only")
+			r.Try(func() { ruleWhoStores(w, r, "R01.18") })
 			r.Rule("R01.10", 1, "only scoped result-less registrations enter the list of per-scope initializers (a singleton initializer in it would run again for every scope)")
 			r.Try(func() { ruleInitializerListMembership(w, r, "R01.10") })
 		})
@@ -325,7 +329,7 @@ func init() {
 			r.Try(func() { ruleInitializersOnce(w, r, "R02.6") })
 			r.Try(func() { ruleEntryPointsStoreNothing(w, r, "R02.7") })
 			sub := NewReport(r.Prop, r.Tier, w)
-			for _, id := range []string{"R07.1", "R07.2", "R07.3", "R07.4", "R07.5", "R07.6", "R07.7", "R07.8", "R07.9", "R07.10", "R07.11"} {
+			for _, id := range []string{"R07.1", "R07.2", "R07.3", "R07.4", "R07.5", "R07.6", "R07.7", "R07.8", "R07.9", "R07.10", "R07.11", "R07.12"} {
 				sub.Rule(id, 0, "")
 			}
 			r.Try(func() { checkC07(w, sub) })
@@ -382,6 +386,8 @@ func init() {
 			r.Try(func() { ruleNoRepeatedConstructorCall(w, r, "R03.9") })
 			r.Rule("R03.10", 3, "a transient instance cannot enter an instance table: the singleton table and the scope cache are written only by setSingleton / setInstance and their private halves, under the lifetime of the descriptor being stored")
 			r.Try(func() { ruleWhoWritesTables(w, r, "R03.10", "R03.10", la) })
+			r.Rule("R03.11", 3, "a service is transient exactly when it was registered so: Descriptor.Lifetime is only ever the Lifetime parameter of the registration call or a copy of the base descriptor's (a descriptor made up at resolution time with another lifetime caches what should be fresh)")
+			r.Try(func() { ruleLifetimeSource(w, r, "R03.11") })
 			r.Rule("R03.7", 1, "no recycled storage on the resolution path (no sync.Pool)")
 			r.Try(func() { ruleNoPooledInvocationState(w, r, "R03.7") })
 		})
@@ -414,6 +420,10 @@ func init() {
 			r.Try(func() { reexport(w, r, "R04.15", func(sub *Report) { checkC17(w, sub) }, "R17.5") })
 			r.Rule("R04.16", 1, "no recycled storage on the resolution path (a pooled parameter object still carries the fields of the consumer it was built for)")
 			r.Try(func() { ruleNoPooledInvocationState(w, r, "R04.16") })
+			r.Rule("R04.17", 1, "the order of a group is the order of registration for good: no in-place slice operation (sort, reverse, delete) on a slice the function did not build - a provider's group lists are live")
+			r.Try(func() { ruleNoInPlaceOnShared(w, r, "R04.17") })
+			r.Rule("R04.18", 2, "every parameter and every field that is not skipped is resolved by the one dispatch on group / name / type: no alternative path fills a field from another source first")
+			r.Try(func() { ruleArgsPerInvocation(w, r, "R04.18") })
 			r.Rule("R04.9", 1, "a descriptor's Constructor is reflect.ValueOf of the value registered, never a value from the shared analysis cache")
 			r.Try(func() { ruleDescriptorConstructorSource(w, r, "R04.9") })
 			r.Rule("R04.10", 2, "the descriptor list keeps registration order (append, reset, order-preserving delete only)")
@@ -455,6 +465,8 @@ func init() {
 			r.Try(func() { ruleRollback(w, r, "R05.15") })
 			r.Rule("R05.16", 1, "the registrations checked for cycles are the registrations the provider serves: one critical section of the collection per Build")
 			r.Try(func() { ruleBuildOneCriticalSection(w, r, "R05.16") })
+			r.Rule("R05.17", 3, "two registrations never share one graph node: every insertion is guarded by the duplicate test, group members get a fresh position (append only), and the views stay in step")
+			r.Try(func() { reexport(w, r, "R05.17", func(sub *Report) { checkC17(w, sub) }, "R17.1", "R17.2", "R17.3") })
 			r.Rule("R05.11", 1, "the edge table and the nodes' own dependency lists describe the same edges")
 			r.Try(func() { ruleEdgesAgreeWithNodeLists(w, r, "R05.11") })
 		})
@@ -495,6 +507,10 @@ func init() {
 			r.Try(func() { ruleNoInPlaceOnShared(w, r, "R06.15") })
 			r.Rule("R06.16", 4, "the graph component stays sortable after a removal: a deleted node is swept out of every edge list, every occurrence of it (a node that lists it twice must not keep a dangling edge)")
 			r.Try(func() { ruleDeletedNodesUnlinked(w, r, "R06.16") })
+			r.Rule("R06.17", 1, "eager creation follows the topological order, one node after the other: the container starts no goroutine other than the context watchers")
+			r.Try(func() { reexport(w, r, "R06.17", func(sub *Report) { checkGoStatements(w, sub) }, "R09.4") })
+			r.Rule("R06.18", 3, "what a registration yields does not depend on earlier removals: group members get a fresh position (a group only grows by append), a removal drops exactly the descriptor it found, the views stay in step")
+			r.Try(func() { reexport(w, r, "R06.18", func(sub *Report) { checkC17(w, sub) }, "R17.1", "R17.3", "R17.8") })
 			r.Rule("R06.9", 1, "the edge table and the nodes' own dependency lists describe the same edges")
 			r.Try(func() { ruleEdgesAgreeWithNodeLists(w, r, "R06.9") })
 		})
